@@ -73,8 +73,11 @@ RefOutcome(T, b) ==
 (* Tamper operators on an encoding e: <<op, i, a>>                          *)
 (*   0 set byte i to a   1 delete byte i   2 duplicate byte i               *)
 (*   3 insert a before byte i   4 swap bytes i and i+1                      *)
+\* bytes on both sides of the edges of small value domains (hours, minutes, seconds, months, days, weekdays,
+\* two-valued tags): a decoder that is lenient about one of them invents a value (seeded S69)
+EdgeBytes == {4, 6, 7, 8, 12, 13, 23, 24, 28, 29, 30, 31, 32, 59, 60, 61}
 TamperOps(e) ==
-  {<<0, i, a>> : i \in 1..Len(e), a \in Alphabet} \cup {<<1, i, 0>> : i \in 1..Len(e)}
+  {<<0, i, a>> : i \in 1..Len(e), a \in Alphabet \cup EdgeBytes} \cup {<<1, i, 0>> : i \in 1..Len(e)}
   \cup {<<2, i, 0>> : i \in 1..Len(e)} \cup {<<3, i, a>> : i \in 1..Len(e), a \in {0, 1, 255}}
   \cup {<<4, i, 0>> : i \in 1..(Len(e) - 1)}
 Apply(e, op) ==
